@@ -511,3 +511,198 @@ func checkUnderlineViews(c *Ctx, p *Prog, rule string) {
 		c.Undecided(rule, "Style:underline-setters", "-", "no Style method writes attrs or ulStyle")
 	}
 }
+
+// checkStyleCacheWrites: the cache of "what style the terminal is in" may only ever hold something the
+// terminal was completely told.  Its writers are therefore exactly two: the forget-marker (styleInvalid)
+// and, in drawCell, the style whose whole emission (attributes off, colours, attributes, underline,
+// hyperlink) was just sent — the very value compared with the cache on the way in.  Any other store
+// (for example "the screen was just cleared in the default style, so remember that") claims more than
+// was sent: attributes, underline and hyperlink of that style were not.
+func checkStyleCacheWrites(c *Ctx, p *Prog, rule string) {
+	n := 0
+	for _, fn := range p.modFns {
+		if fn.Pkg != p.Tcell {
+			continue
+		}
+		for _, st := range storesTo(fn, "tcell.tScreen", "curstyle") {
+			n++
+			key := fmt.Sprintf("%s:curstyle-store", fn.Name())
+			v := derefCell(st.Val)
+			if u, ok := v.(*ssa.UnOp); ok && u.Op == token.MUL {
+				if g, isG := u.X.(*ssa.Global); isG && g.Name() == "styleInvalid" {
+					c.OK(rule, key+"=styleInvalid", p.pos(st.Pos()), "the forget-marker")
+					continue
+				}
+			}
+			if fn.Name() != "drawCell" {
+				c.Fail(rule, key, p.pos(st.Pos()), "the style cache is set to "+valName(v)+" outside the painter's emission: the terminal was not told all of that style")
+				continue
+			}
+			// in drawCell: under the `style != t.curstyle` edge, and the stored value is the compared one
+			okGuard := false
+			for _, g := range rawGuardsAt(st.Block()) {
+				bo, isBO := g.Cond.(*ssa.BinOp)
+				if !isBO || !(bo.Op == token.NEQ && g.Positive || bo.Op == token.EQL && !g.Positive) {
+					continue
+				}
+				for _, pair := range [][2]ssa.Value{{bo.X, bo.Y}, {bo.Y, bo.X}} {
+					if sameValue(derefCell(pair[0]), v) {
+						if u, ok := derefCell(pair[1]).(*ssa.UnOp); ok {
+							if ref, _, okR := fieldAddrRef(u.X); okR && ref.Name == "curstyle" {
+								okGuard = true
+							}
+						}
+					}
+				}
+			}
+			c.Check(okGuard, rule, key+"=emitted-style", p.pos(st.Pos()), "stored behind `style != t.curstyle`, the value being the style just emitted")
+		}
+	}
+	if n < 2 {
+		c.Undecided(rule, "curstyle-stores", "-", fmt.Sprintf("only %d stores to the style cache found", n))
+	}
+}
+
+// staticReachFrom: module functions reachable from root through static calls, anonymous functions and
+// sync.Once.Do targets (goroutines started with `go` are not followed).
+func staticReachFrom(p *Prog, root *ssa.Function) map[*ssa.Function]bool {
+	reach := map[*ssa.Function]bool{}
+	var visit func(fn *ssa.Function)
+	visit = func(fn *ssa.Function) {
+		if fn == nil || fn.Pkg != p.Tcell || reach[fn] {
+			return
+		}
+		reach[fn] = true
+		for _, a := range fn.AnonFuncs {
+			visit(a)
+		}
+		eachInstr(fn, func(in ssa.Instruction) {
+			cc := callCommon(in)
+			if cc == nil {
+				return
+			}
+			if _, isGo := in.(*ssa.Go); isGo {
+				return
+			}
+			if callee := staticCallee(cc); callee != nil {
+				visit(callee)
+			}
+			if calleeName(cc) == "(*sync.Once).Do" && len(cc.Args) == 2 {
+				visit(boundTarget(cc.Args[1]))
+			}
+		})
+	}
+	visit(root)
+	return reach
+}
+
+// checkStopQIsQuit: StopQ() is what PollEvent, PostEventWait and ChannelEvents wait on besides the
+// queue; its contract is "closed by Fini, stays open across Suspend".  The field it returns must be one
+// that nothing reachable from Suspend closes and that Fini's path does close.
+func checkStopQIsQuit(c *Ctx, p *Prog, rule, tname string) {
+	sq := p.Fn("tcell:(*" + tname + ").StopQ")
+	if sq == nil {
+		c.Undecided(rule, tname+".StopQ", "-", "not found")
+		return
+	}
+	var field string
+	okShape := true
+	for _, r := range returnsOf(sq) {
+		if len(r.Results) != 1 {
+			okShape = false
+			continue
+		}
+		v := derefCell(resultOf(r, 0))
+		for {
+			if ct, ok := v.(*ssa.ChangeType); ok {
+				v = derefCell(ct.X)
+				continue
+			}
+			break
+		}
+		ref, _, ok := loadedField(v)
+		if !ok || ref.Owner != "tcell."+tname || (field != "" && field != ref.Name) {
+			okShape = false
+			continue
+		}
+		field = ref.Name
+	}
+	if !okShape || field == "" {
+		c.Fail(rule, tname+".StopQ:returns-quit-channel", p.pos(sq.Pos()), "does not simply return one channel field of the screen")
+		return
+	}
+	closers := map[*ssa.Function]bool{}
+	for _, fn := range p.modFns {
+		if fn.Pkg != p.Tcell {
+			continue
+		}
+		eachInstr(fn, func(in ssa.Instruction) {
+			cc := callCommon(in)
+			if cc == nil {
+				return
+			}
+			if b, ok := cc.Value.(*ssa.Builtin); ok && b.Name() == "close" && len(cc.Args) == 1 {
+				if ref, _, ok := loadedField(cc.Args[0]); ok && ref.Owner == "tcell."+tname && ref.Name == field {
+					closers[fn] = true
+				}
+			}
+		})
+	}
+	susp := p.Fn("tcell:(*" + tname + ").Suspend")
+	fini := p.Fn("tcell:(*" + tname + ").Fini")
+	bad := ""
+	if susp != nil {
+		for fn := range staticReachFrom(p, susp) {
+			if closers[fn] {
+				bad += "the channel StopQ hands out (" + field + ") is closed by " + fn.Name() + ", which Suspend reaches: pollers and ChannelEvents would take a suspension for the end; "
+			}
+		}
+	}
+	closedByFini := false
+	if fini != nil {
+		for fn := range staticReachFrom(p, fini) {
+			if closers[fn] {
+				closedByFini = true
+			}
+		}
+	}
+	if !closedByFini {
+		bad += "nothing Fini reaches closes " + field + "; "
+	}
+	c.Check(bad == "", rule, tname+".StopQ:returns-quit-channel", p.pos(sq.Pos()), "returns "+tname+"."+field+", closed on Fini's path only "+bad)
+}
+
+// checkHideCursor: every draw ends by re-evaluating the *requested* cursor position, so hiding the
+// cursor has to move the request off-screen: HideCursor is ShowCursor with two negative constants, or
+// stores negative constants to both requested coordinates.  Clearing a visibility flag alone is undone
+// by the next Show.
+func checkHideCursor(c *Ctx, p *Prog, rule, tname string) {
+	fn := p.Fn("tcell:(*" + tname + ").HideCursor")
+	if fn == nil {
+		c.Undecided(rule, tname+".HideCursor", "-", "not found")
+		return
+	}
+	ok, detail := false, "neither ShowCursor(-1,-1) nor negative stores to the requested position"
+	for _, call := range callsIn(fn, func(n string, _ *ssa.CallCommon) bool { return strings.HasSuffix(n, tname+").ShowCursor") }) {
+		cc := callCommon(call)
+		if len(cc.Args) == 3 {
+			x, okx := constInt(cc.Args[1])
+			y, oky := constInt(cc.Args[2])
+			if okx && oky && x < 0 && y < 0 {
+				ok, detail = true, fmt.Sprintf("ShowCursor(%d, %d)", x, y)
+			}
+		}
+	}
+	neg := map[string]bool{}
+	for _, f := range []string{"cursorx", "cursory"} {
+		for _, st := range storesTo(fn, "tcell."+tname, f) {
+			if k, isK := constInt(st.Val); isK && k < 0 {
+				neg[f] = true
+			}
+		}
+	}
+	if neg["cursorx"] && neg["cursory"] {
+		ok, detail = true, "stores negative constants to cursorx and cursory"
+	}
+	c.Check(ok, rule, tname+".HideCursor:moves-request-off-screen", p.pos(fn.Pos()), detail)
+}
